@@ -29,7 +29,7 @@ STUBS = ["Circuit.sblock_queue = list-backed stub; start sequence = real resolve
 ASSUMPTIONS = ["the relative order of a cond_ method and a cond_ instance callback is unspecified (compared as a multiset)"]
 EXPECT_LABELS = {'all': ['step-ret', 'step-state', 'step-log', 'seq-ret', 'seq-state', 'seq-log', 'chain-error',
                          'readonly-data']}
-EXPECT_NOTES = {'all': ['specific-beats-any', 'rejected-none', 'rejected-missing', 'cond-rejected', 'goto',
+EXPECT_NOTES = {'all': ['initial-state-chains', 'specific-beats-any', 'rejected-none', 'rejected-missing', 'cond-rejected', 'goto',
                         'unknown-event', 'chained', 'notrans-sent']}
 FLOORS = {'quick': {'paths': 2000, 'checks': 6000}, 'thorough': {'paths': 20000, 'checks': 60000}}
 
@@ -60,6 +60,7 @@ class RefFSM:
         self.exit_names = exit_names
         self.chain = chain              # {state: [(etype, data)] requested from enter_state}
         self.cond_fn = cond_fn          # (event, idx) -> bool/SymBool
+        self.calc = lambda st: st       # calc_output (default: the state name)
         self.state = None
         self.output = UNDEF
         self.log = []
@@ -123,6 +124,8 @@ class RefFSM:
                         if nxt is not None:
                             raise ChainError('two events')
                         nxt = (cet, cdata, cn)
+                    # the nested event() returns True exactly if the chained transition was accepted
+                    self.log.append(('enter-ret', self.state, cn is not None))
                 if requests:
                     self.log.append(('enter-after', self.state, data.get('k')))
                 for _i in range(n_enter - 1):
@@ -143,7 +146,7 @@ class RefFSM:
         else:
             raise ChainError('limit')
         prev = self.output
-        self.output = self.state
+        self.output = self.calc(self.state)
         if prev is UNDEF or prev != self.output:
             self.log.append(('ev', 'output', prev, self.output))
         self.log.append(('ev', 'enter', self.state, self.output))
@@ -151,7 +154,7 @@ class RefFSM:
 
 
 def build_real(env, name, states, events, timers, cond_m, cond_i, enter_m, enter_i, exit_m, exit_i, chain, cond_fn,
-               sink, initdef=None):
+               sink, initdef=None, calc=None):
     """Create the class through the real metaclass machinery and one instance with probes."""
     ns = {'STATES': list(states), 'EVENTS': [tuple(e) for e in events], 'TIMERS': dict(timers)}
 
@@ -171,9 +174,15 @@ def build_real(env, name, states, events, timers, cond_m, cond_i, enter_m, enter
         def action(self=None):
             d = edzed.fsm_event_data.get()
             sink.append((kind, st, d.get('k')))
+            try:
+                d['hack'] = 1
+                sink.append(('NOT-READONLY',))
+            except TypeError:
+                pass
             if with_chain:
                 for cet, cdata in chain.get(st, []):
-                    holder['fsm'].event(cet, **cdata)
+                    r = holder['fsm'].event(cet, **cdata)
+                    sink.append((kind + '-ret', st, r))
                 if chain.get(st):
                     # still the data of the event that caused THIS action (a nested event has its own context)
                     sink.append((kind + '-after', st, edzed.fsm_event_data.get().get('k')))
@@ -189,6 +198,8 @@ def build_real(env, name, states, events, timers, cond_m, cond_i, enter_m, enter
             chain_done.add(st)
     for st in exit_m:
         ns['exit_' + st] = mk_action('exit', st, False)
+    if calc is not None:
+        ns['calc_output'] = lambda self: calc(self._state)
     cls = type('Gen' + name, (edzed.FSM,), ns)
     kw = {}
     for ev in cond_i:
@@ -255,7 +266,7 @@ def logs_eq(got, exp):
         if len(g) != len(e) or g[0] != e[0]:
             return False
         for a, b in zip(g[1:], e[1:]):
-            if a is UNDEF or b is UNDEF or a is None or b is None or isinstance(a, str) or isinstance(b, str):
+            if a is UNDEF or b is UNDEF or a is None or b is None or isinstance(a, (str, bool)) or isinstance(b, (str, bool)):
                 if not (a is b or a == b):
                     return False
             else:
@@ -380,10 +391,25 @@ def catalog():
     cat['gotochain'] = dict(states=['a', 'b', 'c'], events=[('go', 'a', 'b'), ('back', None, 'a')], timers={},
                             enter={'b', 'c'}, exit={'b', 'a'}, cond={'go'},
                             chain={'b': [(Goto('c'), {'k': 55, 'extra': 1})]}, alphabet=['go', 'back', Goto('b')])
+    # a chained request without any transition (on_notrans from inside an entry action, state = the new state)
+    cat['chain-notrans'] = dict(states=['a', 'b', 'c'], events=[('go', 'a', 'b'), ('nope', 'a', 'c'), ('never', 'b', None), ('back', None, 'a')],
+                                timers={}, enter={'b'}, exit={'b', 'a'}, cond={'go'},
+                                chain={'b': [('nope', {'k': 31})]}, alphabet=['go', 'back', 'nope', Goto('b')])
+    cat['chain-forbidden'] = dict(states=['a', 'b', 'c'], events=[('go', 'a', 'b'), ('never', 'b', None), ('never', None, 'c'), ('back', None, 'a')],
+                                  timers={}, enter={'b'}, exit={'b', 'a'}, cond={'go'},
+                                  chain={'b': [('never', {'k': 32})]}, alphabet=['go', 'back', 'never', Goto('b')])
+    # an entry action that chains in a zero-length timed state: the chained request pre-empts the timed event
+    cat['zerotimer-chain'] = dict(states=['a', 'c'], events=[('go', 'a', 't'), ('tick', 't', 'c'), ('back', 'c|t', 'a'), ('tick', 'a', None)],
+                                  timers={'t': (0.0, 'tick')}, enter={'t', 'c'}, exit={'t', 'a'},
+                                  cond={'tick', 'back'}, chain={'t': [('back', {'k': 41})]}, alphabet=['go', 'back', 'tick', Goto('t')])
+    # two intermediate states in one chain (legal: one request per entry action)
+    cat['longchain'] = dict(states=['a', 'b', 'c', 'd'], events=[('go', 'a', 'b'), ('n1', 'b', 'c'), ('n2', 'c', 'd'), ('back', None, 'a')],
+                            timers={}, enter={'b', 'c', 'd'}, exit={'a', 'b', 'c'}, cond={'n1', 'n2'},
+                            chain={'b': [('n1', {'k': 51})], 'c': [('n2', {'k': 52})]}, alphabet=['go', 'back', Goto('b'), Goto('c')])
     return cat
 
 
-def scen_seq(env, machine, n, inst):
+def scen_seq(env, machine, n, inst, init=None, calc=False):
     m = catalog()[machine]
     conds = {}
     ctr = [0]
@@ -402,14 +428,31 @@ def scen_seq(env, machine, n, inst):
         em, ei = m['enter'], m['enter']
     xm, xi = (m['exit'], set()) if not inst else (set(), m['exit'])
     cm, ci = (m['cond'], set()) if not inst else (set(), m['cond'])
-    fsm = build_real(env, 'fsm', m['states'], m['events'], m['timers'], cm, ci, em, ei, xm, xi, m['chain'], cond_fn, sink)
+    calc_fn = (lambda st: 'out-of-' + st) if calc else None
+    fsm = build_real(env, 'fsm', m['states'], m['events'], m['timers'], cm, ci, em, ei, xm, xi, m['chain'], cond_fn, sink,
+                     initdef=init, calc=calc_fn)
     ref = RefFSM(m['states'], m['events'], m['timers'], {e: 1 for e in m['cond']},
                  {s: (2 if inst == 'both' else 1) for s in m['enter']}, {s: 1 for s in m['exit']}, m['chain'], cond_fn)
-    start_sync(circ)
+    if calc:
+        ref.calc = calc_fn
+    ctr[0] = 900
     try:
-        ref.event(Goto(m['states'][0]), {}, env)
+        start_sync(circ)
+        init_exc = None
+    except Exception as err:
+        init_exc = err
+    ctr[0] = 900
+    try:
+        # the initial state is entered by Goto while the FSM is not initialised: chained / timed events of the
+        # initial state are processed WITHOUT consulting conditions (docs/FSM.rst)
+        ref.event(Goto(init or m['states'][0]), {}, env)
     except ChainError:
+        env.note('chain-error-at-init')
+        env.check('chain-error', isinstance(init_exc, edzed.EdzedCircuitError), info=lambda: init_exc)
         return
+    env.check('seq-init-exc', init_exc is None, info=lambda: init_exc)
+    if init:
+        env.note('initial-state-chains')
     env.check('seq-init', logs_eq(sink, ref.log) and fsm.state == ref.state, info=lambda: (sink, ref.log))
     for i in range(n):
         del sink[:]
@@ -463,5 +506,10 @@ def shards(tier):
     for machine in catalog():
         for inst in (False, True, 'both'):
             out.append({'name': f'seq {machine} inst_callbacks={inst} n={n}', 'scenario': 'scen_seq',
-                        'params': {'machine': machine, 'n': n, 'inst': inst}, 'cost': 50})
+                        'params': {'machine': machine, 'n': n, 'inst': inst, 'calc': inst is True}, 'cost': 50})
+    # the initial state is itself a chaining / zero-length timed state
+    for machine, init in (('chain', 'b'), ('double', 'b'), ('endless', 'b'), ('zerotimer', 't'), ('gotochain', 'b'),
+                          ('chain-notrans', 'b'), ('zerotimer-chain', 't'), ('longchain', 'b'), ('anystate', 'c')):
+        out.append({'name': f'seq {machine} initdef={init} n={max(1, n - 1)}', 'scenario': 'scen_seq',
+                    'params': {'machine': machine, 'n': max(1, n - 1), 'inst': False, 'init': init, 'calc': True}, 'cost': 30})
     return out
